@@ -36,6 +36,7 @@ struct Under {
   std::function<XY(Lat, Q)> defect_image;               // what Forward returns if (and only if) the defect is what we see
   std::function<Q(Lat)> defect_k;
   bool defect_in_reverse = false;                       // the defect also affects Reverse (then Reverse-only predicates carry the field too)
+  bool defect_blanket = false;                          // the object was BUILT through the defective call (SetScale evaluating a defective Forward): every failure carries the field
 };
 struct Oracle {
   std::function<XY(Lat, Q)> fwd;
@@ -76,6 +77,7 @@ static void check_projection(Ctx& ctx, const Ell& E, const Under& U, const Oracl
     auto FAIL = [&](const char* kind, const std::string& msg, mc::Fields extra = {}) {
       mc::Fields f = {{"kind", kind}, {"proj", U.name}, {"lat", fmt(lat)}, {"dlon", fmt(dlon)}, {"lon0", fmt(lon0)}};
       for (auto& t : extra) f.push_back(t);
+      if (U.defect_blanket && extra.empty()) f.push_back({"defect", U.defect});
       ctx.fail(where + " " + kind, where + ": " + msg, f);
     };
     double x = NAN, y = NAN, gam = NAN, k = NAN; int sg = 0;
@@ -108,7 +110,7 @@ static void check_projection(Ctx& ctx, const Ell& E, const Under& U, const Oracl
 
     bool defect_hit = false;                   // the forward result is exactly what the object's described known defect produces
     auto is_defect = [&]() -> bool {
-      if (U.defect.empty()) return false;
+      if (U.defect.empty() || U.defect_blanket) return false;
       XY Pd = U.defect_image(L, lam); Q kd = U.defect_k(L);
       Q exd = Q(x) - Pd.x, eyd = Q(y) - Pd.y;
       if (!finiteq(kd) || !(kd > 0)) return hypotq(exd, eyd) <= TOLP + 64 * 1.1e-16Q * hypotq(Pd.x, Pd.y);     // the defect image is a singular pole: plane comparison
@@ -472,8 +474,15 @@ int main(int argc, char** argv) {
           if (fi > 0) { Axes As; As.lats = {-89, -45, 0, 1e-9, 30, 60, 89.999999999, 90, -90}; As.dlons = {0, 30, -179}; check_same(ctx, E, forms[0], U, O, As, 2e-9Q * (E.a / WGS84_A)); }
         }
         // SetScale on the first form
-        if (albers_south) ctx.list("skipped", "AlbersEqualArea::SetScale on southern-hemisphere cones: it evaluates the defective Forward (known finding albers-south-forward-uses-minus-lat), nothing checkable remains");
-        if (!forms.empty() && !albers_south) for (double ls : {-60.0, 0.0, 1e-9, 45.0, 89.0}) for (double ks : {1.0, 0.9}) {
+        // AlbersEqualArea::SetScale evaluates Forward; on southern cones that is the defective call (known finding).  Probe: is the defect present in this build?
+        bool south_defect_present = false;
+        if (albers_south && !forms.empty()) {
+          double x, y, g, k; forms[0].fwd(0, sp.l1, 20, x, y, g, k);
+          Lat Lm = L1; Lm.s = -L1.s; Q km = O.k(Lm);
+          south_defect_present = fabsq(Q(k) / Q(k1) - 1) > 1e-9Q && finiteq(km) && fabsq(Q(k) / km - 1) < 1e-9Q;
+          if (south_defect_present) ctx.list("degraded", "AlbersEqualArea::SetScale on southern-hemisphere cones evaluates the defective Forward (known finding albers-south-forward-uses-minus-lat): all its failures are attributed to that finding");
+        }
+        if (!forms.empty()) for (double ls : {-60.0, 0.0, 1e-9, 45.0, 89.0}) for (double ks : {1.0, 0.9}) {
           mc::Ctx::Case cs0(ctx);
           std::shared_ptr<LambertConformalConic> lc; std::shared_ptr<AlbersEqualArea> al;
           Under U; U.name = forms[0].name + ".SetScale(" + fmt(ls) + "," + fmt(ks) + ")";
@@ -485,6 +494,7 @@ int main(int argc, char** argv) {
           } catch (const std::exception& e) { ctx.fail(U.name + " setscale-exception", U.name + ": " + e.what(), {{"kind", "setscale-exception"}, {"proj", U.name}}); continue; }
           Oracle Os = albers ? make_albers_oracle(E, L1, L2, k1s) : make_lcc_oracle(E, L1, L2, k1s);
           Family f2 = fam;
+          if (south_defect_present) { U.defect = "albers-south-forward-uses-minus-lat"; U.defect_blanket = true; }
           const Q r = Q(ks) / kold;                                 // factor by which SetScale changes the scale
           if (!albers && fabsq(r - 1) > 1e-15Q && Os.n != 0 && fabsq(Os.n) != 1) {
             // known finding: LambertConformalConic::SetScale rescales _scale and _k0 but not _nrho0 (= n rho0) and _drhomax: Forward then returns
@@ -500,7 +510,7 @@ int main(int argc, char** argv) {
           Axes As; As.lats = {ls, -45, 30, 60}; As.dlons = {0, 30, -179}; As.lon0s = {0};
           check_projection(ctx, E, U, Os, As, f2, {}, 1.0, false);
           { double x, y, g, k; U.fwd(0, ls, 20, x, y, g, k); Q e = fabsq(Q(k) / Q(ks) - 1);
-            if (e > 1.6e-14Q) ctx.fail(U.name + " setscale-k", U.name + ": Forward gives k=" + fx(k) + " at the SetScale latitude", {{"kind", "setscale-k"}, {"proj", U.name}}); }
+            if (e > 1.6e-14Q) { mc::Fields ff = {{"kind", "setscale-k"}, {"proj", U.name}}; if (U.defect_blanket) ff.push_back({"defect", U.defect}); ctx.fail(U.name + " setscale-k", U.name + ": Forward gives k=" + fx(k) + " at the SetScale latitude", ff); } }
         }
       }
     }
